@@ -608,6 +608,11 @@ class TransferManager(BaseManager):
         queued_downloads: list[Transfer] = []
         queued_uploads: list[Transfer] = []
         for transfer in self._transfers:
+            # Don't start a second attempt for a transfer which still has an
+            # attempt (queueing remotely, initializing) in flight
+            if any(not task.done() for task in transfer.get_tasks()):
+                continue
+
             # Get the user object from the user manager, if the user is tracked
             # this user object will be returned. Otherwise a new user object is
             # created, but not assigned to the user manager, whose status is
@@ -1407,7 +1412,8 @@ class TransferManager(BaseManager):
                     reason = FailReason.CANCELLED
                 elif current_state == TransferState.COMPLETE:
                     reason = FailReason.COMPLETE
-                elif transfer.is_processing():
+                elif transfer.is_processing() or (
+                        transfer._transfer_task is not None and not transfer._transfer_task.done()):
                     # Needs investigation, currently don't do anything when the
                     # transfer is already being processed
                     return
